@@ -88,7 +88,12 @@ enum CtxSpec {
     Country(&'static str),
     FromCoords(usize),
     TzAndCountry(usize),
+    /// the coordinates of entry `.0` with an EXPLICIT zone (entry `.1` of `OTHER_ZONES`): the same
+    /// place seen from several zones, so that anything keyed on the coordinates alone shows
+    CoordsExplicitTz(usize, usize),
 }
+
+const OTHER_ZONES: &[chrono_tz::Tz] = &[chrono_tz::UTC, chrono_tz::Asia::Tokyo, chrono_tz::America::New_York, chrono_tz::Europe::Paris];
 
 #[derive(Clone, Debug)]
 enum Query {
@@ -146,6 +151,16 @@ fn build_val(expr: &str, ctx: &CtxSpec, bounded: bool) -> Val {
             let coords = Coordinates::new(lat, lon).expect("valid coordinates");
             let mut c = Context::from_coords(coords);
             let loc = c.locale.clone();
+            if bounded {
+                c = c.approx_bound_interval_size(bound);
+            }
+            Val::Tz(oh.with_context(c), loc)
+        }
+        CtxSpec::CoordsExplicitTz(i, z) => {
+            let (lat, lon) = COORDS[*i];
+            let coords = Coordinates::new(lat, lon).expect("valid coordinates");
+            let loc = TzLocation::new(OTHER_ZONES[*z]).with_coords(coords);
+            let mut c = Context::default().with_locale(loc.clone());
             if bounded {
                 c = c.approx_bound_interval_size(bound);
             }
@@ -298,13 +313,24 @@ fn build_batch(n: usize, seed: u64) -> Vec<Item> {
             items.push(Item { kind: Kind::Line(l) });
             continue;
         }
-        let ctx = match rng.below(8) {
+        let ctx = match rng.below(10) {
             0 => CtxSpec::Plain,
             1 | 2 => CtxSpec::Country(*rng.pick(COUNTRIES)),
             3 | 4 | 5 => CtxSpec::FromCoords(rng.below(COORDS.len() as u64) as usize),
-            _ => CtxSpec::TzAndCountry(rng.below(COORDS.len() as u64) as usize),
+            6 | 7 => CtxSpec::TzAndCountry(rng.below(COORDS.len() as u64) as usize),
+            // few coordinates x all zones, so that the same place is met under several zones
+            _ => CtxSpec::CoordsExplicitTz(rng.below(3) as usize, rng.below(OTHER_ZONES.len() as u64) as usize),
         };
-        let t = gen_naive(&mut rng);
+        let mut t = gen_naive(&mut rng);
+        let mut expr = expr;
+        if matches!(ctx, CtxSpec::CoordsExplicitTz(..)) {
+            // the same place under several zones asked about the same few days with sun events: results
+            // that depend on what was evaluated before (a cache keyed without the zone, say) then differ
+            // between evaluation orders
+            expr = rng.pick(&["sunrise-sunset", "dawn-dusk", "(sunrise+01:00)-(sunset-01:00); PH off", "sunset-sunrise"]).to_string();
+            let d = NaiveDate::from_ymd_opt(2024, 6, 20).unwrap() + chrono::Duration::days(rng.range(0, 2));
+            t = d.and_hms_opt(rng.range(0, 23) as u32, 30, 0).unwrap();
+        }
         let q = match rng.below(8) {
             0 | 1 | 2 => Query::State(t),
             3 => Query::Next(t),
